@@ -1105,3 +1105,19 @@ MUTANTS += [
  dict(id='R6-benign-end-wait-with-timer-variable', props=['C03'], expect='SILENT',
       edits=[(MS, '\tselect {\n\tcase <-ackDone:\n\tcase <-time.After(endDeliveryWait):\n\tcase <-ctx.Done():\n\t}\n\treturn nil\n}\n', '\tlinger := time.NewTimer(endDeliveryWait)\n\tdefer linger.Stop()\n\tselect {\n\tcase <-ackDone:\n\tcase <-linger.C:\n\tcase <-ctx.Done():\n\t}\n\treturn nil\n}\n')]),
 ]
+
+# --- round 7 (DESIGN 8.14) ---
+MUTANTS += [
+ dict(id='R7-ack-faked-for-small-files', props=['C02'], expect='R-ACK-FROM-PEER/ack-from-peer/',
+      edits=[(MS, '\t\t\tfileDone, err := doneRegistry.wait(transferCtx, state.key)\n\t\t\tif err != nil {\n\t\t\t\tsetErr(err)\n\t\t\t\treturn\n\t\t\t}\n', '\t\t\tfileDone, err := doneRegistry.wait(transferCtx, state.key)\n\t\t\tif err != nil {\n\t\t\t\tsetErr(err)\n\t\t\t\treturn\n\t\t\t}\n\t\t\tif state.item.Size == 0 && !fileDone.OK {\n\t\t\t\tfileDone = FileDone{StreamID: state.key, OK: true}\n\t\t\t}\n')]),
+ dict(id='R7-benign-ack-two-step-declaration', props=['C02', 'C01'], expect='SILENT',
+      edits=[(MS, '\t\t\tfileDone, err := doneRegistry.wait(transferCtx, state.key)\n\t\t\tif err != nil {\n\t\t\t\tsetErr(err)\n\t\t\t\treturn\n\t\t\t}\n', '\t\t\tack, err := doneRegistry.wait(transferCtx, state.key)\n\t\t\tif err != nil {\n\t\t\t\tsetErr(err)\n\t\t\t\treturn\n\t\t\t}\n\t\t\tfileDone := ack\n')]),
+ dict(id='R7-rejected-primary-kept', props=['C05', 'C06'], expect='R-REJECTED-REMOVED/rejected-removed/',
+      edits=[(SCF, '\t\tif sc.ChunkSize != chunkSize || sc.FileSize != fileSize || sc.FileID != fileID {\n\t\t\t_ = os.Remove(path)\n\t\t\tsc = nil\n', '\t\tif sc.ChunkSize != chunkSize || sc.FileSize != fileSize || sc.FileID != fileID {\n\t\t\tsc = nil\n')]),
+ dict(id='R7-file-end-under-sched-lock-only', props=['C18'], expect='R-CONTROL-WRITE-SERIAL/control-write-serial/',
+      edits=[(MS, '\tvar controlWriteMu sync.Mutex\n', '\tvar controlWriteMu sync.Mutex\n\tvar endWriteMu sync.Mutex\n'),
+             (MS, '\t\tcontrolWriteMu.Lock()\n\t\terr := writeFileEnd(', '\t\tendWriteMu.Lock()\n\t\terr := writeFileEnd('),
+             (MS, '\t\t\tCRC32: state.frameCount(),\n\t\t})\n\t\tcontrolWriteMu.Unlock()\n', '\t\t\tCRC32: state.frameCount(),\n\t\t})\n\t\tendWriteMu.Unlock()\n')]),
+ dict(id='R7-cancel-in-phase-waiter', props=['C09'], expect='R-CANCEL-OWNER/cancel/ice.(*Prober).ProbeAndDial/dialCancel',
+      edits=[(ICE, '\t\t\twg.Wait()\n\t\t\tclose(allDone)\n', '\t\t\twg.Wait()\n\t\t\tdialCancel()\n\t\t\tclose(allDone)\n')]),
+]
